@@ -1188,6 +1188,10 @@ class xfunc_op_base(xfunc):
             self.null = self.return_missing_as[0]
         else:
             self.null = self.return_missing_as
+        if values.dtype.type is numpy.datetime64:
+            # NaN cannot be stored in a datetime64 array; NaT is its missing value.
+            if isinstance(self.null, float) and numpy.isnan(self.null):
+                self.null = numpy.datetime64("NaT")
 
     def get_initial_regions(self, cube):
         """Return empty NumPy arrays to fill."""
